@@ -31,7 +31,7 @@ def _only_scalar_sum_dtype(real, model, chunk):
     result of a rule without column arguments; an object array in reality) gets the dtype of the scalar.  A system whose
     outputs differ ONLY in the dtype label of such a column (same values) is not counted as a disagreement."""
     import re
-    if not model or len(real) != len(model):
+    if not model:
         return False
     scalar_rules = set()
     sigs = {mm.group(1): [a.strip() for a in mm.group(2).split(",") if a.strip()]
@@ -45,6 +45,14 @@ def _only_scalar_sum_dtype(real, model, chunk):
                     or re.sub(r"_[ymwd]$", "", a) in {re.sub(r"_[ymwd]$", "", x) for x in scalar_rules} for a in args):
                 scalar_rules.add(n)
                 changed = True
+    # … and an aggregation SPECIFIED over such a sum (`'source_col': '<scalar rule>_<group>'`) raises TypeError in reality
+    # (numpy_groupies on the object array), while the model, which gives the sum the scalar's dtype, goes on
+    if real and real[0].strip() == "ERROR TypeError":
+        for r in scalar_rules:
+            if re.search(r"'source_col': '" + re.escape(r) + r"(_[ymwd])?_(hh|wthh|fg|bg|eg|ehe|sn)'", chunk):
+                return True
+    if len(real) != len(model):
+        return False
     for a, b in zip(real, model):
         if a == b:
             continue
